@@ -97,9 +97,7 @@ func checkCompositeLiteral(
 		return nil
 	}
 
-	if ptr, ok := t.(*types.Pointer); ok {
-		t = ptr.Elem()
-	}
+	t = util.Deref(t)
 
 	named, ok := t.(*types.Named)
 	if !ok {
@@ -157,9 +155,7 @@ func checkNewCall(
 		return nil
 	}
 
-	if ptr, ok := t.(*types.Pointer); ok {
-		t = ptr.Elem()
-	}
+	t = util.Deref(t)
 
 	named, ok := t.(*types.Named)
 	if !ok {
@@ -227,6 +223,9 @@ func checkVarDeclaration(
 			if t == nil {
 				continue
 			}
+
+			// Resolve aliases: "type A = pkg.T" denotes pkg.T
+			t = types.Unalias(t)
 
 			// Skip pointer types - var p *Struct just creates a nil pointer, not an instance
 			if _, ok := t.(*types.Pointer); ok {
